@@ -39,12 +39,12 @@ pub struct CalcHistory {
     pub probe: (String, String),
 }
 
-pub struct Purity;
+pub struct Purity(pub &'static str);
 
 impl Prop for Purity {
     type Case = CalcHistory;
     fn name(&self) -> &'static str {
-        "calculator-history"
+        self.0
     }
     fn check(&self, w: &mut Worker, c: &CalcHistory) -> Verdict {
         let rendered = format!("[{}] history of {} texts, then probe [{}] {:?}", c.cfg.label(), c.history.len(), c.probe.0, c.probe.1);
@@ -87,7 +87,8 @@ impl Prop for Purity {
                 }
             }
         }
-        acc.finish(rendered).nt(c.history.len() >= 3 && probe_ok).class_if(failing_lines > 0, "history-contains-failing-lines").class_if(c.history.len() >= 10, "history>=10").class_if(c.cfg != Cfg::default(), "non-default-config").class_if(c.probe.1.contains('='), "probe-has-assignment")
+        let related = self.0 == "related-history";
+        acc.finish(rendered).nt(c.history.len() >= 3 && probe_ok).class_if(related, "history-made-of-variants-of-the-probe").class_if(related && c.history.iter().any(|(_, t)| t.split(|ch: char| !ch.is_ascii_digit() && ch != ',' && ch != '.').any(|w| w == "0")), "variant-with-a-zero-operand").class_if(failing_lines > 0, "history-contains-failing-lines").class_if(c.history.len() >= 10, "history>=10").class_if(c.cfg != Cfg::default(), "non-default-config").class_if(c.probe.1.contains('='), "probe-has-assignment")
     }
 }
 
@@ -108,6 +109,43 @@ fn text_strategy() -> impl Strategy<Value = (String, String)> {
 pub fn calc_history_strategy(max: usize) -> impl Strategy<Value = CalcHistory> {
     let cfg = prop_oneof![4 => Just(Cfg::default()), 2 => prop::sample::select(vec![Cfg::seps(".", ","), Cfg::seps(".", ""), Cfg::default().with_tz("EST"), Cfg { num: Some((4, false, true)), ..Cfg::default() }])];
     (cfg, prop::collection::vec(text_strategy(), 1..max), text_strategy()).prop_map(|(cfg, history, probe)| CalcHistory { cfg, history, probe })
+}
+
+/// values that replace the numeric literals of the probe in the history texts
+pub const REPL: [f64; 12] = [0.0, 0.0, 0.0, 1.0, 2.0, 12.0, 0.5, 1000.0, 1e9, 31.0, 60.0, 100.0];
+
+/// histories made of VARIANTS of the probe: the same sentence (same units, currencies, zones, keywords, variable
+/// names) with other operands - zero, one, large, fractional - so that anything the calculator might remember
+/// per sentence shape, unit pair, currency pair, zone or name is primed with different numbers before the probe
+pub fn related_history_strategy(max: usize) -> impl Strategy<Value = CalcHistory> {
+    let cfg = prop_oneof![4 => Just(Cfg::default()), 1 => Just(Cfg::seps(".", ","))];
+    let variant = prop::collection::vec((any::<bool>(), 0usize..REPL.len()), 12);
+    (cfg, any_line().prop_filter("time of day", |g| !time_dependent(&g.text(",", "."))), prop::collection::vec(variant, 1..max), prop::collection::vec(text_strategy(), 0..3)).prop_map(|(cfg, g, variants, others)| {
+        let (dec, thou) = (cfg.dec().to_string(), cfg.thou().to_string());
+        let mut history = vec![];
+        for (k, picks) in variants.iter().enumerate() {
+            let mut v = g.clone();
+            let mut n = 0;
+            for l in v.prelude.iter_mut().chain(std::iter::once(&mut v.line)) {
+                for t in l.toks.iter_mut() {
+                    if let Some(num) = &mut t.num {
+                        let (change, idx) = picks[n % picks.len()];
+                        n += 1;
+                        if change || k == 0 {
+                            num.v = REPL[idx];
+                        }
+                    }
+                }
+            }
+            history.push((v.lang.clone(), v.text(&dec, &thou)));
+            if let Some(o) = others.get(k) {
+                history.push(o.clone());
+            }
+        }
+        let mut cfg = cfg;
+        cfg.tz = g.tz.clone();
+        CalcHistory { cfg, history, probe: (g.lang.clone(), g.text(&dec, &thou)) }
+    })
 }
 
 // ---- (b) session histories ---------------------------------------------------------------------
@@ -233,7 +271,25 @@ pub fn session_text() -> impl Strategy<Value = String> {
 }
 
 pub fn session_history_strategy(max: usize) -> impl Strategy<Value = SessionHistory> {
-    (1u8..=3, prop::collection::vec((0u8..3, session_text()), 2..max), any::<bool>()).prop_map(|(sessions, ops, extra_execute)| SessionHistory { sessions, ops, extra_execute })
+    // with probability ~1/6 an op sets the text that session executed last once more (unchanged, or with a trailing
+    // blank / line separator): "each time a new text is set" includes setting an equal text
+    (1u8..=3, prop::collection::vec((0u8..3, session_text(), 0u8..18), 2..max), any::<bool>()).prop_map(|(sessions, ops, extra_execute)| {
+        let n = sessions.max(1) as usize;
+        let mut last: Vec<Option<String>> = vec![None; n];
+        let mut out = vec![];
+        for (s, text, rep) in ops {
+            let si = s as usize % n;
+            let text = match (&last[si], rep) {
+                (Some(prev), 0) => prev.clone(),
+                (Some(prev), 1) => format!("{} ", prev),
+                (Some(prev), 2) => format!("{}\n", prev),
+                _ => text,
+            };
+            last[si] = Some(text.clone());
+            out.push((s, text));
+        }
+        SessionHistory { sessions, ops: out, extra_execute }
+    })
 }
 
 pub fn regressions() -> Vec<SessionHistory> {
@@ -247,20 +303,22 @@ pub fn regressions() -> Vec<SessionHistory> {
 }
 
 pub fn run(ctx: &Ctx) {
-    ctx.rule("(a) calculator histories: a freshly built long-lived calculator evaluates 1-30 texts drawn from all other generators plus token soup (failing and rule-heavy lines included), then a probe text; oracle: status, every slot (None / error text / output / AST value) and the highlight tokens of the probe equal those on a fresh calculator of the same configuration that evaluates only the probe; (b) session histories over 1-3 sessions sharing one calculator: set_text(text of 1-5 lines incl. empty lines, assignments, CRLF) + execute_session; oracle: status true, slot count = line count of the text just set, slots = the last |T| slots of a one-shot execute of the concatenation of all texts that session has executed (fresh calculator, fresh session); non-trivial = (a) history >= 3 texts and the probe yields a value, (b) texts of different line counts on one session and a variable from an earlier text used in a later one");
+    ctx.rule("(a) calculator histories: a freshly built long-lived calculator evaluates 1-30 texts drawn from all other generators plus token soup (failing and rule-heavy lines included), then a probe text; (a') related histories: the texts before the probe are variants of the probe itself - same sentence, units, currencies, zones and names, operands replaced by 0, 1, 2, 0.5, 12, 31, 60, 100, 1000, 1e9 - mixed with unrelated texts; oracle: status, every slot (None / error text / output / AST value) and the highlight tokens of the probe equal those on a fresh calculator of the same configuration that evaluates only the probe; (b) session histories over 1-3 sessions sharing one calculator: set_text(text of 1-5 lines incl. empty lines, assignments, CRLF; about one op in six sets the session's previous text again, unchanged or with a trailing blank / line separator) + execute_session; oracle: status true, slot count = line count of the text just set, slots = the last |T| slots of a one-shot execute of the concatenation of all texts that session has executed (fresh calculator, fresh session); non-trivial = (a) history >= 3 texts and the probe yields a value, (b) texts of different line counts on one session and a variable from an earlier text used in a later one");
     ctx.assume("lines mentioning now are not generated; execute_session without a preceding set_text is exercised only at the end of a session's life (no assertion beyond not panicking)");
     ctx.run_table(&Sessions, "regressions", regressions(), false);
     let (h, s) = match ctx.tier {
         crate::engine::Tier::Quick => (16, 8),
         crate::engine::Tier::Thorough => (30, 12),
     };
-    ctx.run_generated(&Purity, ctx.tier.pick(400, 8_000), || calc_history_strategy(h));
+    ctx.run_generated(&Purity("calculator-history"), ctx.tier.pick(400, 8_000), || calc_history_strategy(h));
+    ctx.run_generated(&Purity("related-history"), ctx.tier.pick(600, 12_000), || related_history_strategy(h / 2));
     ctx.run_generated(&Sessions, ctx.tier.pick(1_500, 40_000), || session_history_strategy(s));
 }
 
 pub fn replay(w: &mut Worker, sub: &str, case: &serde_json::Value) -> Option<Verdict> {
     match sub {
-        "calculator-history" => crate::engine::replay_case(&Purity, w, case),
+        "calculator-history" => crate::engine::replay_case(&Purity("calculator-history"), w, case),
+        "related-history" => crate::engine::replay_case(&Purity("related-history"), w, case),
         "session-history" => crate::engine::replay_case(&Sessions, w, case),
         _ => None,
     }
